@@ -649,6 +649,8 @@ def decode_solve_options(opts):
             kw["eig_regularization"] = opts["eig_reg"]
         if "tol_dr" in opts:
             kw["tol_dimension_reduction"] = opts["tol_dr"]
+    for k, v in (opts.get("extra") or {}).items():
+        kw[k] = v                                  # solver-specific keyword arguments, forwarded by PEP.solve(**kwargs)
     return kw
 
 
